@@ -385,7 +385,7 @@ PROPS["C14"] = {
     # the property relates two runs of the implementation: a DIFF line is a violation by itself
     "impl_oracle": lambda il: not any(l in ("VERDICT DIFF", "RULES DIFF") for l in il),
     "nontrivial": lambda il, meta: any("reject" in l for l in il[:1]) or meta.get("note") in ("inline-spread", "wrap-inline"),
-    "partial": "the external printer (Display of documents) is outside the model; theorems: permutations (definitions, selections, arguments, variable definitions, inside the schema), renaming of operations, aliases, fragments and variables, wrapping in an untyped inline fragment; inlining of spreads and re-printing are compared run against run on the implementation",
+    "partial": "the external printer (Display of documents) is outside the model; theorems: permutations (definitions, selections, arguments, variable definitions, inside the schema), renaming of operations, aliases, fragments and variables, wrapping in an untyped inline fragment, inlining of spreads; re-printing is compared run against run on the implementation",
 }
 
 
